@@ -41,8 +41,11 @@ B('C06.ssl2-header-flag', ['C06'], [(P + 'tls/record.py', "body_composer.compose
 B('C07.padding-minimum', ['C07'], [(P + 'ssh/record.py', "        if padding_length < 4:", "        if padding_length < 3:")], mention=['C07.R3'])
 B('C07.padding-block', ['C07'], [(P + 'ssh/record.py', "padding_length = 8 - ((payload_length + 5) % 8)", "padding_length = 8 - ((payload_length + 4) % 8)")], mention=['C07.R3'])
 B('C07.packet-length', ['C07'], [(P + 'ssh/record.py', "packet_length = payload_length + padding_length + 1", "packet_length = payload_length + padding_length")], mention=['C07.R3'])
-B('C07.mpint-sign', ['C07'], [(P + 'common/parse.py', "pad_byte = b'\\xff' if negative else b'\\x00'\n        else:\n            pad_byte = b''",
-                               "pad_byte = b'\\x00'\n        else:\n            pad_byte = b''")], mention=['C07.R5'])
+# (the former variant made the pad of negative values 00: unreachable, _compose_mpint always yields a set top bit for them)
+B('C07.mpint-sign', ['C07', 'C11'], [(P + 'common/parse.py', "pad_byte = b'\\xff' if negative else b'\\x00'\n        else:\n            pad_byte = b''",
+                               "pad_byte = b'\\xff' if negative else b''\n        else:\n            pad_byte = b''")], mention=['C07.R5', 'C11.R6'])
+N('benign.mpint-negative-pad-unreachable', [(P + 'common/parse.py', "pad_byte = b'\\xff' if negative else b'\\x00'\n        else:\n            pad_byte = b''",
+                               "pad_byte = b'\\x00'\n        else:\n            pad_byte = b''")])
 B('C07.kexinit-order', ['C07', 'C16'], [(P + 'ssh/subprotocol.py',
   "    mac_algorithms_client_to_server = attr.ib(\n        converter=SshMacAlgorithmVector,\n        validator=attr.validators.instance_of(SshMacAlgorithmVector)\n    )\n    mac_algorithms_server_to_client = attr.ib(",
   "    mac_algorithms_server_to_client = attr.ib(\n        converter=SshMacAlgorithmVector,\n        validator=attr.validators.instance_of(SshMacAlgorithmVector)\n    )\n    mac_algorithms_client_to_server = attr.ib(")],
